@@ -176,6 +176,9 @@ def extract(tree):
     ops, types, jint = bytecode.extract(tree)
     body, masks = _expanded_run_vm(tree)
     size, labs = _lookup_table(body)
+    if len(labs) > size:
+        raise ExtractError("vm.c: op_lookup has more initialisers than its declared size")
+    preamble_facts(body)
     blocks = _split_blocks(body)
     acc = {}
     pending = []
@@ -189,9 +192,19 @@ def extract(tree):
         pending.append(label)
         if stripped == "":
             continue   # falls through into the next handler (JOP_MAKE_TUPLE)
-        a = _analyse(label, text)
-        if a["unknown"]:
-            raise ExtractError("vm.c handler %s: unrecognised operand use %s" % (label, a["unknown"][:3]))
+        # `vm_restore()` switches to the frame that is returned into: accesses after it belong to that frame's instruction
+        cut = re.search(r"(?<![>.\w])pc\s*=\s*[^;]*->pc\s*;", text)
+        pre, post = (text[:cut.start()], text[cut.end():]) if cut else (text, "")
+        a = _analyse(label, pre)
+        b = _analyse(label, post)
+        if a["unknown"] or b["unknown"]:
+            raise ExtractError("vm.c handler %s: unrecognised operand use %s" % (label, (a["unknown"] + b["unknown"])[:3]))
+        if b["consts"] or b["defs"] or b["envs"] or b["jumps"]:
+            raise ExtractError("vm.c handler %s: indexed access after vm_restore()" % label)
+        a["resume_slots"] = b["slots"]
+        a["resume_next"] = b["next"]
+        a["returns"] = a["returns"] or b["returns"]
+        a["pushes"] = bool(re.search(r"\bjanet_fiber_funcframe\s*\(", text))
         for l in pending:
             if l in acc:
                 raise ExtractError("vm.c: duplicate handler %s" % l)
@@ -225,34 +238,50 @@ def _fld(f):
     return ".f" + f
 
 
+def preamble_facts(body):
+    """how run_vm resumes a suspended frame before dispatching: `stack[A] = in` unless NO_USEVAL, `pc++` unless NO_SKIP"""
+    m = re.search(r"if\s*\(\s*!\s*\(fiber->flags & JANET_FIBER_RESUME_NO_USEVAL\)\s*\)\s*stack\[__FA__\]\s*=\s*in\s*;\s*"
+                  r"if\s*\(\s*!\s*\(fiber->flags & JANET_FIBER_RESUME_NO_SKIP\)\s*\)\s*pc\+\+\s*;", body)
+    if not m:
+        # the flags are macros and are expanded to numbers by the preprocessor; accept the numeric form
+        m = re.search(r"if\s*\(\s*!\s*\(fiber->flags & 0x2000000\)\s*\)\s*stack\[__FA__\]\s*=\s*in\s*;\s*"
+                      r"if\s*\(\s*!\s*\(fiber->flags & 0x4000000\)\s*\)\s*pc\+\+\s*;", body)
+    if not m:
+        raise ExtractError("vm.c: resume preamble (stack[A] = in; pc++) not recognised")
+    return True
+
+
 def render(tree):
     x = extract(tree)
     ln = bytecode.lean_name
     o = [csrc.lean_header("src/core/vm.c (run_vm handlers after macro expansion), src/core/bytecode.c (janet_verify)"),
          "import JanetModel.Gen.Bytecode\nimport JanetModel.Bytecode.VerifyDefs\n", "namespace JanetModel.Gen.VmAccess\nopen JanetModel.Gen.Bytecode JanetModel.Bytecode\n"]
-    o.append("/-- operand fields each `VM_OP(JOP_x)` block dereferences (slot = `stack[f]`, const/def/env with run-time-guard flag,\n"
-             "    jump = `pc += f`, next = `pc++`, returns = block can leave `run_vm`, entry = enters a callee at its first instruction) -/")
+    o.append("/-- operand fields each `VM_OP(JOP_x)` block dereferences -/")
     o.append("def Op.access : Op → Access")
     for name, val in x["ops"]:
         a = x["access"][name]
-        o.append("  | .%s => { slots := [%s], consts := [%s], defs := [%s], envs := [%s], jumps := [%s], next := %s, returns := %s, entry := %s }" % (
+        o.append("  | .%s => { slots := [%s], consts := [%s], defs := [%s], envs := [%s], jumps := [%s], next := %s, returns := %s, entry := %s, pushes := %s, resumeSlots := [%s], resumeNext := %s }" % (
             ln(name), ", ".join(_fld(f) for f in a["slots"]),
             ", ".join("(%s, %s)" % (_fld(f), str(g).lower()) for f, g in a["consts"]),
             ", ".join("(%s, %s)" % (_fld(f), str(g).lower()) for f, g in a["defs"]),
             ", ".join("(%s, %s)" % (_fld(f), str(g).lower()) for f, g in a["envs"]),
-            ", ".join(_fld(f) for f in a["jumps"]), str(a["next"]).lower(), str(a["returns"]).lower(), str(a["entry"]).lower()))
+            ", ".join(_fld(f) for f in a["jumps"]), str(a["next"]).lower(), str(a["returns"]).lower(), str(a["entry"]).lower(),
+            str(a["pushes"]).lower(), ", ".join(_fld(f) for f in a["resume_slots"]), str(a["resume_next"]).lower()))
     o.append("")
-    count = len(x["ops"])
     nm = {n: v for n, v in x["ops"]}
     lk = []
     for l in x["lookup"]:
-        lk.append("none" if l == "unknown_op" else "some %d" % nm[l] if l in nm else "some 999")
+        key = "JOP_" + l[4:] if l.startswith("JOP_") else l
+        lk.append("none" if l == "unknown_op" else ("some %d" % nm[l] if l in nm else "some 999"))
     o.append("/-- `op_lookup[]`: declared size and initialisers (`none` = label_unknown_op) -/")
     o.append("abbrev lookupSize : Nat := %d" % x["lookup_size"])
     o.append("def lookup : List (Option Nat) := [" + ", ".join(lk) + "]\n")
-    o.append("/-- masks: dispatch of the first opcode with / without the breakpoint flag; `vm_next` mask; janet_verify's masks -/")
-    o.append("abbrev firstMaskBreak : Nat := %d\nabbrev dispatchMask : Nat := %d" % x["first_masks"])
-    o.append("abbrev verifyRangeMask : Nat := %d\nabbrev verifyTypeMask : Nat := %d\nabbrev verifyLastMask : Nat := %d" % (x["verify_masks"][0], x["verify_masks"][1], x["last_mask"]))
-    o.append("def terminals : List Op := [" + ", ".join("." + ln(t) for t in x["terminals"]) + "]\n")
+    o.append("def accessOfNat (n : Nat) : Access := match Op.ofNat? n with | some op => Op.access op | none => {}")
+    o.append("def itypeOfNat (n : Nat) : IType := match Op.ofNat? n with | some op => Op.itype op | none => .none_\n")
+    o.append("/-- all tables and masks read off the current source -/")
+    o.append("def tables : Tables := {\n  count := instructionCount, itype := itypeOfNat, access := accessOfNat, lookup := lookup,\n"
+             "  verifyRangeMod := %d, verifyTypeMod := %d, verifyLastMod := %d, dispatchMod := %d, breakMod := %d,\n  terminals := [%s] }\n" % (
+                 x["verify_masks"][0] + 1, x["verify_masks"][1] + 1, x["last_mask"] + 1, x["first_masks"][1] + 1, x["first_masks"][0] + 1,
+                 ", ".join(str(nm[t]) for t in x["terminals"])))
     o.append("end JanetModel.Gen.VmAccess\n")
     return "\n".join(o)
